@@ -190,4 +190,53 @@ example : selectTle [0, 100, 200] 149 1000 = .chosen 1 := by decide
 example : selectTle [0, 100, 200] 150 1000 = .chosen 2 := by decide
 example : selectTle [0, 100, 200] 1500 1000 = .noTleData := by decide
 
+/-- **Asking again gives the same answer**: however often the element set is asked for on one reader (the
+clock-drift correction asks, then the angle computation asks again), every answer is the one a single query on a
+fresh reader gives - in particular a pass reported as having no TLE data is never navigated with the rejected set
+on a later query. -/
+theorem repeated_queries (dates : List Int) (s : Int) (threshMs : Rat) (k : Nat) :
+    ∀ r ∈ queryMany dates s threshMs k none, r = selectTle dates s threshMs := by
+  -- invariant: the cache is empty, or holds the index a fresh selection chooses
+  have key : ∀ (k : Nat) (c : Option Nat), (c = none ∨ selectTle dates s threshMs = .chosen (c.getD 0) ∧ c.isSome) →
+      ∀ r ∈ queryMany dates s threshMs k c, r = selectTle dates s threshMs := by
+    intro k
+    induction k with
+    | zero => intro c _ r hr; simp [queryMany] at hr
+    | succ k ih =>
+      intro c hc r hr
+      simp only [queryMany, List.mem_cons] at hr
+      rcases hc with hc | ⟨hsel, hsome⟩
+      · subst hc
+        cases hq : selectTle dates s threshMs with
+        | chosen i =>
+          rcases hr with e | hr
+          · rw [e]; simp [queryTle, hq]
+          · have : (queryTle dates s threshMs none).1 = some i := by simp [queryTle, hq]
+            rw [this] at hr
+            rw [← hq]
+            exact ih (some i) (Or.inr ⟨by simpa using hq, rfl⟩) r hr
+        | noTleData =>
+          rcases hr with e | hr
+          · rw [e]; simp [queryTle, hq]
+          · have : (queryTle dates s threshMs none).1 = none := by simp [queryTle, hq]
+            rw [this] at hr
+            rw [← hq]
+            exact ih none (Or.inl rfl) r hr
+        | indexError =>
+          rcases hr with e | hr
+          · rw [e]; simp [queryTle, hq]
+          · have : (queryTle dates s threshMs none).1 = none := by simp [queryTle, hq]
+            rw [this] at hr
+            rw [← hq]
+            exact ih none (Or.inl rfl) r hr
+      · obtain ⟨i, hi⟩ := Option.isSome_iff_exists.mp hsome
+        subst hi
+        simp only [Option.getD_some] at hsel
+        rcases hr with e | hr
+        · rw [e, hsel]; simp [queryTle]
+        · have : (queryTle dates s threshMs (some i)).1 = some i := by simp [queryTle]
+          rw [this] at hr
+          exact ih (some i) (Or.inr ⟨by simpa using hsel, rfl⟩) r hr
+  exact key k none (Or.inl rfl)
+
 end PygacModel.C17
